@@ -4,6 +4,7 @@ Clauses 1-2 (tokenizer / parse round trip) are pure functions and are NOT decide
 by-product monitor on the read seam is reported in the evidence, nothing more.  DESIGN.md 4 (C04)."""
 import copy
 import errno
+import json
 import os
 
 from vsim import runner, wire, workload
@@ -231,6 +232,14 @@ def gen_c(seed, env):
         if got is None:
             continue
         label, data = got
+        # the same clean text with other line ends / without the final newline is still clean
+        r = rng.random()
+        if r < 0.2:
+            data = data.replace(b"\r\n", b"\n").replace(b"\n", b"\r\n")
+            label += "+crlf"
+        elif r < 0.35 and data.endswith(b"\n"):
+            data = data.rstrip(b"\r\n")
+            label += "+nofinalnl"
         name = "src/f%d.vhd" % i
         sandbox.append(workload.sb_entry(name, data, rng.choice(workload.MODES)))
         names.append(name)
@@ -242,6 +251,18 @@ def gen_c(seed, env):
         argv.append("--backup")
     if style:
         argv += ["--style", style]
+    if rng.random() < 0.2:
+        argv += ["-fp", str(rng.randint(1, 7))]
+    if rng.random() < 0.3:
+        # configuration that does not touch any rule: a clean file stays clean under it
+        cfg = {}
+        if rng.random() < 0.7:
+            cfg["linesep"] = rng.choice(["\n", "\r\n"])
+        if rng.random() < 0.4:
+            cfg["skip_phase"] = sorted(rng.sample(range(1, 8), rng.randint(1, 2)))
+        if cfg:
+            sandbox.append(workload.sb_entry("cfg.json", common.json_bytes(cfg)))
+            argv += ["-c", "cfg.json"]
     argv += ["-f"] + names
     return _desc(seed, rng, sandbox, argv, {"class": "c", "files": meta, "style": style})
 
@@ -251,12 +272,17 @@ def is_clean(desc, env):
     same style on this tree."""
     a = desc["argv"]
     opts = ["--style", a[a.index("--style") + 1]] if "--style" in a else []
+    extra = []
+    if "-c" in a:
+        cname = a[a.index("-c") + 1]
+        extra = [f for f in desc["sandbox"] if f["path"] == cname]
+        opts += ["-c", cname]
     for f in desc["sandbox"]:
         if not f["path"].endswith(".vhd"):
             continue
-        key = ("c04clean", f["b64"], tuple(opts))
+        key = ("c04clean", f["b64"], tuple(opts), tuple(e["b64"] for e in extra))
         if key not in env.cache:
-            c = _desc(0, substream(0, "x"), [workload.sb_entry(f["path"], workload.sb_bytes(f))], ["-p", "1", "-ap", "-of", "syntastic"] + opts + ["-f", f["path"]], {})
+            c = _desc(0, substream(0, "x"), [workload.sb_entry(f["path"], workload.sb_bytes(f))] + extra, ["-p", "1", "-ap", "-of", "syntastic"] + opts + ["-f", f["path"]], {})
             rc = env.run(c)
             st = runner.stream_of(rc)[0]
             env.cache[key] = rc["status"] == "exit" and not rc["end"]["exit"] and st["o"].strip() == "" and st["e"].strip() == ""
@@ -280,12 +306,17 @@ def member(desc, env):
         if "-fp" in a and a[a.index("-fp") + 1] == "0":
             return "b"
     if "-c" in a:
-        if "--style" in a:
-            return None
         name = a[a.index("-c") + 1]
         for f in desc["sandbox"]:
-            if f["path"] == name and any(workload.sb_bytes(f) == common.json_bytes(c) for c in NOFIX_CFGS.values()):
-                return "b"
+            if f["path"] == name:
+                try:
+                    cfg = json.loads(workload.sb_bytes(f).decode())
+                except Exception:
+                    return None
+                if "--style" not in a and any(cfg == c for c in NOFIX_CFGS.values()):
+                    return "b"
+                if set(cfg) <= {"linesep", "skip_phase"} and (desc.get("meta") or {}).get("class") == "c" and is_clean(desc, env):
+                    return "c"
         return None
     if (desc.get("meta") or {}).get("class") == "c" and is_clean(desc, env):
         return "c"
